@@ -29,6 +29,7 @@ class NotifOracle:
         self.errors = []
         self.start_notify = None
         self.last_kind = None
+        self.block_pending = False      # a non-empty block report not yet followed by a refresh at its height
 
     def event(self, kind, height, touched):
         self.calls.append((kind, height, sorted(touched)))
@@ -42,11 +43,15 @@ class NotifOracle:
         elif kind == 'block':
             self.block_heights.add(height)
             self.last_block = height
+            if touched:
+                self.block_pending = True
             if self.started:
                 self._hand(touched, ('block', height))
         elif kind == 'mempool':
             self.mp_heights.add(height)
             self.last_mp = height
+            if height == self.last_block:
+                self.block_pending = False
             if self.started:
                 self._hand(touched, ('mempool', height))
         elif kind == 'notify':
